@@ -23,10 +23,16 @@ pub mod chan;
 pub mod common;
 #[cfg(feature = "c03")]
 pub mod c03;
+#[cfg(feature = "c04")]
+pub mod c04;
 #[cfg(feature = "c05")]
 pub mod c05;
 #[cfg(feature = "c06")]
 pub mod c06;
+#[cfg(feature = "c07")]
+pub mod c07;
+#[cfg(feature = "c08")]
+pub mod c08;
 #[cfg(feature = "c09")]
 pub mod c09;
 #[cfg(feature = "c10")]
@@ -37,6 +43,8 @@ pub mod c11;
 pub mod c12;
 #[cfg(feature = "c13")]
 pub mod c13;
+#[cfg(feature = "c14")]
+pub mod c14;
 #[cfg(feature = "c15")]
 pub mod c15;
 #[cfg(feature = "c16")]
@@ -45,5 +53,7 @@ pub mod c16;
 pub mod c17;
 #[cfg(feature = "c18")]
 pub mod c18;
+#[cfg(feature = "c19")]
+pub mod c19;
 #[cfg(feature = "c20")]
 pub mod c20;
